@@ -12,7 +12,7 @@ PKG = os.path.join(core.REPO, "chainimport")
 HOOK = os.path.join(core.VERIF, "harness", "overlay", "chainimport", "zz_verif_import_headerfs_hook.go")
 HOOK_AT = os.path.join(core.REPO, "headerfs", "zz_verif_import_hook.go")
 
-READY = False
+READY = True
 PROPERTIES = ["C14"]
 
 MANIFEST = {
